@@ -169,46 +169,86 @@ func (t *tunnel) run(topo string, seed int64, conns, maxBytes int, o *Out) strin
 		dial = func() (net.Conn, error) { return net.Dial("tcp", front.Addr().String()) }
 	}
 
-	base := goroutineLevel()
-
-	// open the connections one at a time so that dial i pairs with accept i
+	// open the connections one at a time; a random nonce sent through the tunnel pairs the
+	// dialing end with the accepted end.  Establishing a tunnel may fail while the freshly
+	// started cluster settles (membership flaps under CPU load) - that is availability, not
+	// C07 - so establishment is retried; a stale connection of an abandoned attempt is
+	// recognised by its nonce and discarded.
+	type ar struct {
+		c   net.Conn
+		err error
+	}
+	accCh := make(chan ar, 16)
+	stopAcc := make(chan struct{})
+	defer close(stopAcc)
+	go func() {
+		for {
+			c, err := accept()
+			select {
+			case accCh <- ar{c, err}:
+			case <-stopAcc:
+				if c != nil {
+					c.Close()
+				}
+				return
+			}
+			if err != nil {
+				return
+			}
+		}
+	}()
+	base := goroutineLevel() // includes the accept loop above, excludes every tunnelled connection
 	var pairs []pair
 	for i := 0; i < conns; i++ {
-		type ar struct {
-			c   net.Conn
-			err error
-		}
-		ach := make(chan ar, 1)
-		go func() {
-			c, err := accept()
-			ach <- ar{c, err}
-		}()
-		a, err := dial()
-		if err != nil {
-			return "dial: " + err.Error()
-		}
-		if topo == "f1" || topo == "f2" {
-			// a TCP connection to the forwarder is only tunnelled once bytes flow; send the
-			// pairing byte so that the sink accepts this connection now
-			if _, err := a.Write([]byte{0x7e}); err != nil {
-				return "first write: " + err.Error()
+		var pr *pair
+		var lastErr string
+		for attempt := 0; attempt < 8 && pr == nil; attempt++ {
+			nonce := make([]byte, 8)
+			r.Read(nonce)
+			a, err := dial()
+			if err != nil {
+				lastErr = "dial: " + err.Error()
+				time.Sleep(200 * time.Millisecond)
+				continue
 			}
-		}
-		select {
-		case x := <-ach:
-			if x.err != nil {
-				return "accept: " + x.err.Error()
+			_ = a.SetWriteDeadline(time.Now().Add(3 * time.Second))
+			if _, err := a.Write(nonce); err != nil {
+				lastErr = "nonce write: " + err.Error()
+				a.Close()
+				continue
 			}
-			if topo == "f1" || topo == "f2" {
-				one := make([]byte, 1)
-				if _, err := io.ReadFull(x.c, one); err != nil || one[0] != 0x7e {
-					o.Fail("C07", "tunnel-stream", fmt.Sprintf("%s conn %d: pairing byte lost (%v)", topo, i, err))
+			_ = a.SetWriteDeadline(time.Time{})
+			deadline := time.After(4 * time.Second)
+		wait:
+			for {
+				select {
+				case x := <-accCh:
+					if x.err != nil {
+						return "accept: " + x.err.Error()
+					}
+					got := make([]byte, 8)
+					_ = x.c.SetReadDeadline(time.Now().Add(3 * time.Second))
+					_, err := io.ReadFull(x.c, got)
+					_ = x.c.SetReadDeadline(time.Time{})
+					if err == nil && string(got) == string(nonce) {
+						pr = &pair{a, x.c}
+						break wait
+					}
+					x.c.Close() // stale or broken attempt
+				case <-deadline:
+					lastErr = "no connection reached the upstream end within 4 s"
+					a.Close()
+					break wait
 				}
 			}
-			pairs = append(pairs, pair{a, x.c})
-		case <-time.After(10 * time.Second):
-			return "accept timeout"
+			if pr == nil {
+				o.Count("tunnel:establish-retry")
+			}
 		}
+		if pr == nil {
+			return "could not establish connection " + fmt.Sprint(i) + ": " + lastErr
+		}
+		pairs = append(pairs, *pr)
 	}
 
 	var wg sync.WaitGroup
